@@ -142,8 +142,11 @@ func (c *Client) fetchMetadata(
 	callback func(meta *rdr.MetaData, err error),
 ) {
 	log.Debugf("consume: fetching object metadata %s", name)
+	// the metadata name gets its own backing array: appending to the caller's
+	// slice would write the keyword into spare capacity that may belong to a
+	// longer name of the caller (e.g. the versioned name this one was cut from)
 	args := ExpressRArgs{
-		Name: append(name,
+		Name: append(name[:len(name):len(name)],
 			enc.NewStringComponent(enc.TypeKeywordNameComponent, "metadata"),
 		),
 		Config: &ndn.InterestConfig{
